@@ -293,63 +293,63 @@ macro_rules! trav {
 }
 
 // Bfs::new + next() with an unconstrained source id on every 3-vertex digraph (real Vec: exact bounds).
-// @verif prop=C13 tier=quick fl=f2 role=oob-source/bfs t=900 mem=12 miri=1 allow=panic
+// @verif prop=C13 tier=quick fl=f2 role=oob-source/bfs t=900 mem=12 miri=1 allow=panic checks=full
 #[cfg_attr(kani, kani::proof)]
 #[cfg_attr(kani, kani::unwind(8))]
 pub fn c13_source_bfs() {
     traversal(0);
 }
 
-// @verif prop=C13 tier=quick fl=f2 role=oob-source/bfs-dist t=900 mem=12 miri=1 allow=panic
+// @verif prop=C13 tier=quick fl=f2 role=oob-source/bfs-dist t=900 mem=12 miri=1 allow=panic checks=full
 #[cfg_attr(kani, kani::proof)]
 #[cfg_attr(kani, kani::unwind(8))]
 pub fn c13_source_bfs_dist() {
     traversal(1);
 }
 
-// @verif prop=C13 tier=quick fl=f2 role=oob-source/bfs-pred t=900 mem=12 miri=1 allow=panic
+// @verif prop=C13 tier=quick fl=f2 role=oob-source/bfs-pred t=900 mem=12 miri=1 allow=panic checks=full
 #[cfg_attr(kani, kani::proof)]
 #[cfg_attr(kani, kani::unwind(8))]
 pub fn c13_source_bfs_pred() {
     traversal(2);
 }
 
-// @verif prop=C13 tier=quick fl=f2 role=oob-source/dfs t=900 mem=12 miri=1 allow=panic
+// @verif prop=C13 tier=quick fl=f2 role=oob-source/dfs t=900 mem=12 miri=1 allow=panic checks=full
 #[cfg_attr(kani, kani::proof)]
 #[cfg_attr(kani, kani::unwind(8))]
 pub fn c13_source_dfs() {
     traversal(3);
 }
 
-// @verif prop=C13 tier=quick fl=f2 role=oob-source/dfs-dist t=900 mem=12 miri=1 allow=panic
+// @verif prop=C13 tier=quick fl=f2 role=oob-source/dfs-dist t=900 mem=12 miri=1 allow=panic checks=full
 #[cfg_attr(kani, kani::proof)]
 #[cfg_attr(kani, kani::unwind(8))]
 pub fn c13_source_dfs_dist() {
     traversal(4);
 }
 
-// @verif prop=C13 tier=quick fl=f2 role=oob-source/dfs-pred t=900 mem=12 miri=1 allow=panic
+// @verif prop=C13 tier=quick fl=f2 role=oob-source/dfs-pred t=900 mem=12 miri=1 allow=panic checks=full
 #[cfg_attr(kani, kani::proof)]
 #[cfg_attr(kani, kani::unwind(8))]
 pub fn c13_source_dfs_pred() {
     traversal(5);
 }
 
-// @verif prop=C13 tier=quick fl=f2 role=oob-source/dijkstra t=900 mem=12 miri=1 allow=panic
+// @verif prop=C13 tier=quick fl=f2 role=oob-source/dijkstra t=900 mem=12 miri=1 allow=panic checks=full
 #[cfg_attr(kani, kani::proof)]
 #[cfg_attr(kani, kani::unwind(8))]
 pub fn c13_source_dijkstra() {
     traversal(6);
 }
 
-// @verif prop=C13 tier=quick fl=f2 role=oob-source/dijkstra-dist t=900 mem=12 miri=1 allow=panic
+// @verif prop=C13 tier=quick fl=f2 role=oob-source/dijkstra-dist t=900 mem=12 miri=1 allow=panic checks=full
 #[cfg_attr(kani, kani::proof)]
 #[cfg_attr(kani, kani::unwind(8))]
 pub fn c13_source_dijkstra_dist() {
     traversal(7);
 }
 
-// @verif prop=C13 tier=quick fl=f2 role=oob-source/dijkstra-pred t=900 mem=12 miri=1 allow=panic
+// @verif prop=C13 tier=quick fl=f2 role=oob-source/dijkstra-pred t=900 mem=12 miri=1 allow=panic checks=full
 #[cfg_attr(kani, kani::proof)]
 #[cfg_attr(kani, kani::unwind(8))]
 pub fn c13_source_dijkstra_pred() {
@@ -357,7 +357,7 @@ pub fn c13_source_dijkstra_pred() {
 }
 
 // PredecessorTree with unconstrained entries: search must return or panic.
-// @verif prop=C13 tier=quick fl=f2 role=oob-entry/predecessor-tree t=900 mem=12 miri=1 allow=panic
+// @verif prop=C13 tier=quick fl=f2 role=oob-entry/predecessor-tree t=900 mem=12 miri=1 allow=panic checks=full
 #[cfg_attr(kani, kani::proof)]
 #[cfg_attr(kani, kani::unwind(8))]
 pub fn c13_pred_tree_unconstrained() {
@@ -366,7 +366,7 @@ pub fn c13_pred_tree_unconstrained() {
 
 // AdjacencyMatrix::empty(any order >= 2) + add_arc + has_arc + remove_arc.
 // Release semantics (wrapping arithmetic): Kani runs this one with --no-overflow-checks.
-// @verif prop=C13 tier=quick fl=f0 role=order-overflow/matrix t=900 mem=12 miri=1 allow=panic kani=-Z,unstable-options,--no-overflow-checks
+// @verif prop=C13 tier=quick fl=f0 role=order-overflow/matrix t=900 mem=12 miri=1 allow=panic kani=--no-overflow-checks checks=full
 #[cfg_attr(kani, kani::proof)]
 #[cfg_attr(kani, kani::unwind(8))]
 pub fn c13_matrix_any_order() {
@@ -374,7 +374,7 @@ pub fn c13_matrix_any_order() {
 }
 
 // DistanceMatrix::new(order >= 2^32): the checked multiplication must panic.
-// @verif prop=C13 tier=quick fl=f0 role=order-overflow/distance-matrix t=900 mem=12 expect=panic
+// @verif prop=C13 tier=quick fl=f0 role=order-overflow/distance-matrix t=900 mem=12 expect=panic checks=full
 #[cfg_attr(kani, kani::proof)]
 #[cfg_attr(kani, kani::unwind(8))]
 pub fn c13_distance_matrix_any_order() {
@@ -382,7 +382,7 @@ pub fn c13_distance_matrix_any_order() {
 }
 
 // BellmanFordMoore::new(s >= order) must panic before indexing.
-// @verif prop=C13 tier=quick fl=f1 role=oob-source/bellman-ford t=900 mem=12 expect=panic
+// @verif prop=C13 tier=quick fl=f1 role=oob-source/bellman-ford t=900 mem=12 expect=panic checks=full
 #[cfg_attr(kani, kani::proof)]
 #[cfg_attr(kani, kani::unwind(8))]
 pub fn c13_bfm_source_out_of_range() {
@@ -390,21 +390,21 @@ pub fn c13_bfm_source_out_of_range() {
 }
 
 // AdjacencyMap {0, 2, 3}: converse indexes a Vec of `order` rows by vertex id.
-// @verif prop=C13 tier=quick fl=f1 feat=map4 role=noncontiguous/converse t=1200 mem=12 miri=1 allow=panic
+// @verif prop=C13 tier=quick fl=f1 feat=map4 role=noncontiguous/converse t=1200 mem=12 miri=1 allow=panic checks=full
 #[cfg_attr(kani, kani::proof)]
 #[cfg_attr(kani, kani::unwind(10))]
 pub fn c13_map_noncontiguous_converse() {
     map_noncontiguous(0);
 }
 
-// @verif prop=C13 tier=quick fl=f1 feat=map4 role=noncontiguous/is-semicomplete t=1200 mem=12 miri=1 allow=panic
+// @verif prop=C13 tier=quick fl=f1 feat=map4 role=noncontiguous/is-semicomplete t=1200 mem=12 miri=1 allow=panic checks=full
 #[cfg_attr(kani, kani::proof)]
 #[cfg_attr(kani, kani::unwind(10))]
 pub fn c13_map_noncontiguous_is_semicomplete() {
     map_noncontiguous(1);
 }
 
-// @verif prop=C13 tier=quick fl=f1 feat=map4 role=noncontiguous/is-tournament t=1200 mem=12 miri=1 allow=panic
+// @verif prop=C13 tier=quick fl=f1 feat=map4 role=noncontiguous/is-tournament t=1200 mem=12 miri=1 allow=panic checks=full
 #[cfg_attr(kani, kani::proof)]
 #[cfg_attr(kani, kani::unwind(10))]
 pub fn c13_map_noncontiguous_is_tournament() {
@@ -412,7 +412,7 @@ pub fn c13_map_noncontiguous_is_tournament() {
 }
 
 // AdjacencyList::from(rows with unconstrained heads) followed by converse / indegree_sequence / degree_sequence.
-// @verif prop=C13 tier=quick fl=f1 role=from-rows-then-ops/adjacency-list t=1200 mem=12 miri=1 allow=panic
+// @verif prop=C13 tier=quick fl=f1 role=from-rows-then-ops/adjacency-list t=1200 mem=12 miri=1 allow=panic checks=full
 #[cfg_attr(kani, kani::proof)]
 #[cfg_attr(kani, kani::unwind(10))]
 pub fn c13_list_from_rows_then_ops() {
